@@ -506,15 +506,32 @@ class Interp(object):
             # to the longer length with per-side activity
             from .values import mkpair
 
-            try:
-                la = [] if it.l is UNBOUND else list(it.l)
-                lb = [] if it.r is UNBOUND else list(it.r)
-            except Exception:  # noqa: BLE001
-                raise Unsupported("iteration over %r" % (it,))
+            def side(x):
+                """[(presence Cond, value)] of one side's sequence"""
+                if x is UNBOUND:
+                    return []
+                if type(x) is SymList:
+                    return [(p_, v) for p_, v in x.elems]
+                try:
+                    return [(vc.CT, v) for v in x]
+                except Exception:  # noqa: BLE001
+                    raise Unsupported("iteration over %r" % (it,))
+
+            la, lb = side(it.l), side(it.r)
             T, F = vc.T, vc.F
-            for i in range(max(len(la), len(lb))):
-                pres = Cond(T if i < len(la) else F, T if i < len(lb) else F)
-                yield pres, mkpair(la[i] if i < len(la) else UNBOUND, lb[i] if i < len(lb) else UNBOUND)
+            if all(vc.c_is_true(p_) for p_, _ in la) and all(vc.c_is_true(p_) for p_, _ in lb):
+                # lockstep (the values of the two runs stay paired)
+                for i in range(max(len(la), len(lb))):
+                    pres = Cond(T if i < len(la) else F, T if i < len(lb) else F)
+                    yield pres, mkpair(la[i][1] if i < len(la) else UNBOUND, lb[i][1] if i < len(lb) else UNBOUND)
+                return
+            # optional elements: the two runs are independent, so the left run's iterations may
+            # all come before the right run's (each side keeps its own order; a body execution
+            # is active on one side only)
+            for p_, v in la:
+                yield Cond(p_.l, F), mkpair(v, UNBOUND)
+            for p_, v in lb:
+                yield Cond(F, p_.r), mkpair(UNBOUND, v)
             return
         if t is StructStr or t is Opaque or isinstance(it, (Obj, ClassVal)):
             raise Unsupported("iteration over %r" % (it,))
